@@ -1,7 +1,9 @@
 import UralModel.Model.Canonicalize
+import UralModel.Model.PathHyp
 import UralModel.Lemmas.Str
 import UralModel.Lemmas.Canonicalize
 import UralModel.Lemmas.QuoteIdem
+import UralModel.Lemmas.QuoteRoundTrip
 /-!
 # `normpath` and the path rule of `canonicalize_url` compute the segment view
 
@@ -51,9 +53,6 @@ def resolvePath (q : Str) (hasMore : Bool) : Str :=
 
 theorem canonPath_eq (path : Str) (hasMore : Bool) :
     canonPath path hasMore = resolvePath (unquotePath path) hasMore := rfl
-
-/-- a path as `urlsplit` returns it when the URL has an authority: empty or absolute -/
-def absPath (p : Str) : Bool := p.isEmpty || startsWith p ['/']
 
 /-- a segment that stays on the stack: non-empty, not a dot segment, without `/` -/
 def Normal (s : Str) : Prop := s ≠ [] ∧ s ≠ ['.'] ∧ s ≠ ['.', '.'] ∧ '/' ∉ s
@@ -931,5 +930,186 @@ theorem byteView_resolvePath (q : Str) (m : Bool) (h : absPath q = true) (hq : U
     byteView (resolvePath q m) = byteView q := by
   rw [byteView_eq _ (dotHonest_segments (unq_resolvePath q m h hq)), byteView_eq _ (dotHonest_segments hq),
     segView_resolvePath q m h]
+
+/-! ## quoted mode: the second pass unquotes the quoted canonical path again -/
+
+theorem pathClean_ascii : ∀ n, n < 128 →
+    (Char.ofNat n != '?' && Char.ofNat n != '#' && !isControlChar (Char.ofNat n)) = true →
+    (Char.ofNat n == ' ' || Char.ofNat n == '%' || cleanRaw Gen.Quote.unsafeForPath (Char.ofNat n)) = true := by
+  decide +kernel
+
+theorem pathClean_cleanStr {p : Str} (h : pathClean p = true) :
+    cleanStr Gen.Quote.unsafeForPath p = true := by
+  simp only [pathClean, cleanStr, List.all_eq_true] at h ⊢
+  intro c hc
+  have hc' := h c hc
+  by_cases hlt : c.toNat < 128
+  · have := pathClean_ascii c.toNat hlt
+    rw [Char.ofNat_toNat] at this
+    exact this hc'
+  · have h1 : ¬ c.toNat < 0x80 := hlt
+    simp only [Bool.and_eq_true, Bool.not_eq_true', isControlChar, Bool.or_eq_false_iff,
+      decide_eq_false_iff_not, Bool.and_eq_false_iff] at hc'
+    simp only [cleanRaw, h1, if_false, isC1, Bool.or_eq_true, Bool.not_eq_true',
+      Bool.and_eq_false_iff, decide_eq_false_iff_not]
+    right; right
+    have := hc'.2.2
+    omega
+
+theorem mem_of_mem_join {sep : Str} {parts : List Str} {x : Str} (hx : x ∈ parts) {c : Char}
+    (hc : c ∈ x) : c ∈ join sep parts := by
+  induction parts with
+  | nil => simp at hx
+  | cons a r ih =>
+    cases r with
+    | nil => simp only [List.mem_singleton] at hx; subst hx; simpa [join] using hc
+    | cons b r =>
+      rw [join_cons_cons]
+      simp only [List.mem_cons] at hx
+      rcases hx with rfl | hx
+      · simp [hc]
+      · have := ih (by simpa using hx)
+        simp [this]
+
+theorem mem_of_mem_splitOn {p x : Str} (hx : x ∈ splitOn p '/') {c : Char} (hc : c ∈ x) : c ∈ p := by
+  rw [← join_splitOn '/' p]
+  exact mem_of_mem_join hx hc
+
+theorem pathClean_segment {p x : Str} (h : pathClean p = true) (hx : x ∈ splitOn p '/') :
+    pathClean x = true := by
+  simp only [pathClean, List.all_eq_true] at h ⊢
+  intro c hc
+  exact h c (mem_of_mem_splitOn hx hc)
+
+/-- a string that comes back unchanged from quoting and unquoting -/
+def Rt (s : Str) : Prop := unquotePath (safelyQuote s) = s
+
+theorem rt_unquotePath {x : Str} (h : pathClean x = true) : Rt (unquotePath x) :=
+  safelyUnquote_quote_unquote _ (by decide) asciiSet_path x (pathClean_cleanStr h)
+
+theorem safelyQuote_slash (r : Str) : safelyQuote ('/' :: r) = '/' :: safelyQuote r := by
+  have := safelyQuote_append_sep sep_slash (by decide) [] r
+  have h0 : safelyQuote [] = [] := by decide
+  rw [h0] at this
+  simpa using this
+
+theorem rt_render (v : List Str × Bool) (m : Bool) (h : ∀ x ∈ v.1, Rt x) : Rt (renderSegs v m) := by
+  unfold Rt renderSegs
+  split
+  · cases m <;> decide
+  · rename_i hF
+    have hF' : v.1 ≠ [] := by intro e; rw [e] at hF; exact hF rfl
+    have hmap : (v.1.map safelyQuote).map unquotePath = v.1 := by
+      rw [List.map_map]
+      conv => rhs; rw [← List.map_id v.1]
+      exact List.map_congr_left (fun x hx => h x hx)
+    have hne : v.1.map safelyQuote ≠ [] := by simpa using hF'
+    have hq0 : safelyQuote [] = [] := by decide
+    cases v.2 with
+    | true =>
+      simp only [if_true]
+      have e : '/' :: join ['/'] v.1 ++ ['/'] = ([] : Str) ++ '/' :: (join ['/'] v.1 ++ '/' :: []) := by simp
+      rw [e, safelyQuote_append_sep sep_slash (by decide), safelyQuote_append_sep sep_slash (by decide),
+        safelyQuote_join sep_slash (by decide) _ hF', hq0,
+        unquotePath_append_slash, unquotePath_append_slash, unquotePath_join _ hne, hmap,
+        unquotePath_nil]
+    | false =>
+      simp only [Bool.false_eq_true, if_false, List.append_nil]
+      rw [safelyQuote_slash, safelyQuote_join sep_slash (by decide) _ hF', unquotePath_slash,
+        unquotePath_join _ hne, hmap]
+
+/-- **quoted mode**: unquoting the quoted canonical path gives the canonical path back, for
+every absolute clean path -/
+theorem unquote_quote_canonPath (p : Str) (m : Bool) (h : absPath p = true) (hc : pathClean p = true) :
+    unquotePath (safelyQuote (canonPath p m)) = canonPath p m := by
+  rw [canonPath_render p m h]
+  apply rt_render
+  intro x hx
+  have hx' := segView_subset _ x hx
+  rw [splitOn_unquotePath] at hx'
+  simp only [List.mem_map] at hx'
+  obtain ⟨y, hy, rfl⟩ := hx'
+  exact rt_unquotePath (pathClean_segment hc hy)
+
+theorem absPath_safelyQuote (p : Str) (h : absPath p = true) : absPath (safelyQuote p) = true := by
+  cases p with
+  | nil => decide
+  | cons c r =>
+    have hc : '/' = c := by simpa [absPath, startsWith] using h
+    subst hc
+    rw [safelyQuote_slash]; simp [absPath, startsWith]
+
+/-- the `path` field of the result: quoted, or unquoted once more -/
+def pathOut (quoted : Bool) (p : Str) (m : Bool) : Str :=
+  if quoted then safelyQuote (canonPath p m) else unquotePath (canonPath p m)
+
+theorem absPath_pathOut (q : Bool) (p : Str) (m : Bool) (h : absPath p = true) :
+    absPath (pathOut q p m) = true := by
+  cases q
+  · simp only [pathOut, Bool.false_eq_true, if_false]
+    exact absPath_unquotePath _ (absPath_canonPath p m h)
+  · simp only [pathOut, if_true]
+    exact absPath_safelyQuote _ (absPath_canonPath p m h)
+
+/-- **the four mode round trips on the path**: a second pass in mode `q2` over the path
+produced in mode `q1` gives what mode `q2` gives on the original path; when the first pass was
+the quoted one the path must be clean (`pathClean`) -/
+theorem pathOut_modes (q1 q2 : Bool) (p : Str) (m m' : Bool) (h : absPath p = true)
+    (hc : q1 = true → pathClean p = true) :
+    pathOut q2 (pathOut q1 p m) m' = pathOut q2 p m' := by
+  have key : canonPath (pathOut q1 p m) m' = canonPath p m' := by
+    cases q1 with
+    | false =>
+      simp only [pathOut, Bool.false_eq_true, if_false]
+      rw [unquotePath_canonPath p m h, canonPath_idem p m m' h]
+    | true =>
+      simp only [pathOut, if_true]
+      rw [canonPath_eq, unquote_quote_canonPath p m h (hc rfl), ← unquotePath_canonPath p m h,
+        ← canonPath_eq, canonPath_idem p m m' h]
+  unfold pathOut at key ⊢
+  rw [key]
+
+/-! ## dot-segment insertion -/
+
+theorem segView_insert (a mid b : Str)
+    (hmid : ∀ st, (splitOn mid '/').foldl segStep st = st) :
+    segView (a ++ '/' :: (mid ++ '/' :: b)) = segView (a ++ '/' :: b) := by
+  have hb := splitOn_ne_nil b '/'
+  simp only [segView, splitOn_append_sep', List.foldl_append, hmid]
+  congr 2
+  rw [List.getLast?_append, List.getLast?_append, List.getLast?_append]
+  rw [List.getLast?_eq_some_getLast hb]
+  rfl
+
+theorem insert_dot_ok : ∀ st, (splitOn ['.'] '/').foldl segStep st = st := by
+  intro st; simp [splitOn, splitOn.go, segStep]
+
+theorem insert_empty_ok : ∀ st, (splitOn [] '/').foldl segStep st = st := by
+  intro st; simp [splitOn, splitOn.go, segStep]
+
+theorem insert_updir_ok (x : Str) (hx : Normal x) :
+    ∀ st, (splitOn (x ++ '/' :: ['.', '.']) '/').foldl segStep st = st := by
+  intro st
+  rw [splitOn_append_sep', splitOn_of_not_mem '/' x hx.2.2.2]
+  simp [splitOn, splitOn.go, segStep, hx.1, hx.2.1, hx.2.2.1]
+
+theorem absPath_append (a r : Str) (h : absPath a = true) : absPath (a ++ '/' :: r) = true := by
+  cases a with
+  | nil => simp [absPath, startsWith]
+  | cons c t =>
+    have hc : '/' = c := by simpa [absPath, startsWith] using h
+    subst hc
+    simp [absPath, startsWith]
+
+/-- **inserting a piece that resolves to nothing never changes the canonical path**: `mid`
+may be `.`, `%2E`, the empty string, `x/..`, … — anything whose unescaped segments leave every
+stack unchanged -/
+theorem canonPath_insert (a mid b : Str) (m : Bool) (h : absPath a = true)
+    (hmid : ∀ st, (splitOn (unquotePath mid) '/').foldl segStep st = st) :
+    canonPath (a ++ '/' :: (mid ++ '/' :: b)) m = canonPath (a ++ '/' :: b) m := by
+  apply canonPath_congr _ _ m (absPath_append a _ h) (absPath_append a _ h)
+  unfold pathKey
+  rw [unquotePath_append_slash, unquotePath_append_slash, unquotePath_append_slash]
+  exact segView_insert _ _ _ hmid
 
 end Ural.Normpath
